@@ -27,7 +27,7 @@ func loopOf(header *ssa.BasicBlock) map[*ssa.BasicBlock]bool {
 	in := map[*ssa.BasicBlock]bool{header: true}
 	var stack []*ssa.BasicBlock
 	for _, p := range header.Preds {
-		if header.Dominates(p) && !in[p] {
+		if dom(header, p) && !in[p] {
 			in[p] = true
 			stack = append(stack, p)
 		}
@@ -303,7 +303,7 @@ func runC08(r *Run) {
 					tgt := br.If.Block().Succs[s]
 					all := len(updBlocks) > 0
 					for _, ub := range updBlocks {
-						if !tgt.Dominates(ub) {
+						if !dom(tgt, ub) {
 							all = false
 						}
 					}
@@ -336,7 +336,7 @@ func runC08(r *Run) {
 					tgt := br.If.Block().Succs[s]
 					all := len(updBlocks) > 0
 					for _, ub := range updBlocks {
-						if !tgt.Dominates(ub) {
+						if !dom(tgt, ub) {
 							all = false
 						}
 					}
@@ -452,7 +452,7 @@ func runC08(r *Run) {
 					gated := false
 					for _, a := range as {
 						for _, br := range ifsOnValue(f, a.Value()) {
-							if s, ok := br.truthSlot(true); ok && br.If.Block().Succs[s].Dominates(phi.Block().Preds[i]) {
+							if s, ok := br.truthSlot(true); ok && dom(br.If.Block().Succs[s], phi.Block().Preds[i]) {
 								gated = true
 							}
 						}
@@ -506,7 +506,7 @@ func runC08(r *Run) {
 					if cbf == nil || cbf.Name() != "configured" || cb.X != base.X {
 						continue
 					}
-					if s, ok := br.nilSlot(false); ok && br.If.Block().Succs[s].Dominates(b) {
+					if s, ok := br.nilSlot(false); ok && dom(br.If.Block().Succs[s], b) {
 						gated = true
 					}
 				}
